@@ -25,7 +25,7 @@ sys.path.insert(0, os.path.join(VERIF, "tools"))
 from props import PROPS, REAL_COMMON  # noqa: E402
 
 REPO = os.environ.get("MTBL_SRC", "/repo")
-BUILD = os.path.join(VERIF, "build")
+BUILD = os.environ.get("VERIF_BUILD", os.path.join(VERIF, "build"))
 SHM = "/dev/shm"
 ENV = dict(os.environ)
 ENV["ASAN_SYMBOLIZER_PATH"] = "/usr/bin/llvm-symbolizer-14"
@@ -46,7 +46,7 @@ def build():
     with open(os.path.join(BUILD, ".lock"), "w") as lk:
         fcntl.flock(lk, fcntl.LOCK_EX)
         t0 = time.time()
-        r = subprocess.run(["make", "-C", VERIF, "-j%d" % NCPU, "all", "REPO=" + REPO],
+        r = subprocess.run(["make", "-C", VERIF, "-j%d" % NCPU, "all", "REPO=" + REPO, "B=" + BUILD],
                            stdout=subprocess.PIPE, stderr=subprocess.STDOUT, text=True)
         if r.returncode != 0:
             log(r.stdout[-6000:])
@@ -370,7 +370,8 @@ def check_inner(prop, tier, cfg, seed, total, chunk, workers, tmp, t_start, bt):
     known = load_known()
     rc = 0
     reported = []
-    os.makedirs(os.path.join(VERIF, "replays"), exist_ok=True)
+    REPLAYS = os.environ.get("VERIF_REPLAY_DIR", os.path.join(VERIF, "replays"))
+    os.makedirs(REPLAYS, exist_ok=True)
     for s, v in list(reps.items())[:4]:
         if not v.get("plan"):
             log("INFRA-ERROR violation in run %d has no plan file" % v["i"])
@@ -386,7 +387,7 @@ def check_inner(prop, tier, cfg, seed, total, chunk, workers, tmp, t_start, bt):
         if not (g1.get("viol") and g2.get("viol") and sig(g1) == s and sig(g2) == s and g1["fp"] == g2["fp"]):
             log("INFRA-ERROR nondeterministic replay of minimised plan for run %d: %s / %s" % (v["i"], g1, g2))
             return 2
-        path = os.path.join(VERIF, "replays", "%s-%d-%d.plan" % (prop, seed, v["i"]))
+        path = os.path.join(REPLAYS, "%s-%d-%d.plan" % (prop, seed, v["i"]))
         nops = len(split_plan(small)[1])
         with open(path, "w") as f:
             f.write("# violation of %s: class=%s site=%s\n# %s\n# found at seed=%d run=%d, minimised to %d ops in %d re-executions; replay: bin/check --replay %s\n" % (
@@ -475,8 +476,9 @@ def write_evidence(prop, tier, cfg, seed, runs, crashes, viols, reported, run_wa
     )
     for w in zero:
         log("WARNING probe '%s' was never hit in this batch" % w)
-    os.makedirs(os.path.join(VERIF, "evidence"), exist_ok=True)
-    with open(os.path.join(VERIF, "evidence", prop + ".json"), "w") as f:
+    evdir = os.environ.get("VERIF_EVIDENCE_DIR", os.path.join(VERIF, "evidence"))
+    os.makedirs(evdir, exist_ok=True)
+    with open(os.path.join(evdir, prop + ".json"), "w") as f:
         json.dump(ev, f, indent=1, sort_keys=True)
         f.write("\n")
 
